@@ -355,3 +355,24 @@ func VerifC17Fields() {
 	check('B', NatHoleDetectBehavior{})
 	zzverif.Reach("C17.fields.done")
 }
+
+// VerifC17SendBound: everything the reader accepts can be sent: a message whose body has exactly
+// the largest accepted size (10240 bytes) - or a few bytes less - is written in full and read back.
+func VerifC17SendBound() {
+	k := zzverif.Choice("kind", len(c17Bytes))
+	n := []int{10240, 10239, 10232, 10231}[zzverif.Choice("bodyLen", 4)]
+	c17.marshalBody = make([]byte, n)
+	c17.marshalBody[0], c17.marshalBody[n-1] = '{', '}'
+	c17.marshalErr = false
+	var buf bytes.Buffer
+	err := WriteMsg(&buf, c17New(c17Bytes[k]))
+	zzverif.Assert(err == nil && buf.Len() == 9+n, "C17.sendbound.largest-readable-message-can-be-written")
+	if err != nil || buf.Len() != 9+n {
+		return
+	}
+	c17.unmarshalErr, c17.unmarshalCalls = false, 0
+	st := &c17Stream{data: buf.Bytes(), chunk: 9 + n}
+	m2, err := ReadMsg(st)
+	zzverif.Assert(err == nil && c17KindOf(m2) == c17Bytes[k] && len(c17.body) == n, "C17.sendbound.and-read-back")
+	zzverif.Reach("C17.sendbound.done")
+}
